@@ -17,9 +17,12 @@ SPEC = {
                   "is the fingerprint of its twin-signed form and vice versa, so either fingerprint on the blocklist fails both. "
                   "Tie: real v1/v2 leaves on both curves under real CAs, tampered (byte flip/set/insert/delete/truncate/extend/duplicate, tolerated and "
                   "content-changing re-encodings with repaired lengths, twin and foreign signatures, foreign key and curve) in both encodings, "
-                  "through UnmarshalCertificateFromPEM / Recombine / CAPool.VerifyCertificate and VerifyCachedCertificate; the model decoders agree "
+                  "through UnmarshalCertificateFromPEM / Recombine / CAPool.VerifyCertificate and VerifyCachedCertificate on three pools per tampered input: a fresh "
+                  "pool, the leaf's ONE long-lived pool (which verified the genuine certificate first and every earlier tampered encoding), and the CA's shared "
+                  "pool interleaved with other genuine leaves of that CA; verdicts must not depend on verification history (C02_history_independent, trivial in "
+                  "the stateless model, checked on the implementation: the three verdicts must agree and genuine certificates must stay accepted); the model decoders agree "
                   "with the implementation on every tampered input, and 'accepted => identity unchanged and signature in {issued, twin}, and either "
-                  "fingerprint on the blocklist refuses it' is evaluated on the implementation's verdicts (code 2).",
+                  "fingerprint on the blocklist refuses it' is evaluated on the implementation's verdicts of all three pools (code 2).",
     "level_note": "Trusted: Coq kernel; the codec models (tied by the C03 correspondence as well); unforgeability of Ed25519 / ECDSA-P256 with SHA-256 "
                   "and 'the CA key signs only through SignWith' are premises of C02_tamper, not proved; SHA-256 is a parameter; the group order "
                   "n is written into the model (checked against p256.Swap by the correspondence). The correspondence is differential testing, "
